@@ -23,10 +23,14 @@ CONSTANTS
     FbStartStop, \* values explored for the router's own do_start_stop_run argument (subset of BOOLEAN)
     Rules,       \* alphabet of add_rule calls: [kind, key, sink, consume, dss]
     Events,      \* alphabet of status events: [via, route, id, rest]
-    MaxRules, MaxStatus, MaxRuns,
+    BadRules,    \* alphabet of add_rule calls that must be REJECTED: [why, sink, dss], why \in
+                 \*   "slash" (route_prefix with a "/": TypeError), "unknown-policy" (ValueError),
+                 \*   "bad-keyword" (misspelt policy argument: TypeError)
+    MaxRules, MaxStatus, MaxRuns, MaxRejected,
     RulesInRun,  \* FALSE: this instance adds rules only outside a run (keeps routing-only instances small)
     Export,      \* TRUE: keep the action log `hist`
     Variant      \* "asRequired" | "asCoded" (add_rule in a run starts the sink whatever do_start_stop_run says)
+                 \* | "registerFirst" (add_rule registers / starts the sink before the policy validates the rule)
 
 None == "none"
 NoRule == [kind |-> None, key |-> None, sink |-> None, consume |-> FALSE, dss |-> FALSE]
@@ -40,12 +44,12 @@ VARIABLES
     idRules,     \* function: test id (or None) -> sink                      (_test_ids)
     startStop,   \* set of sinks that get startTestRun / stopTestRun         (_sinks)
     inRun,       \* _in_run
-    runs, nrules, nstatus,
+    runs, nrules, nstatus, nrej,
     calls,       \* history: [a, r, e, raised]                               (for the meaning)
     logs,        \* sink -> Seq of [a, ci, route, id, rest]
     hist
 
-vars == <<fallback, fbss, prefixRules, idRules, startStop, inRun, runs, nrules, nstatus, calls, logs, hist>>
+vars == <<fallback, fbss, prefixRules, idRules, startStop, inRun, runs, nrules, nstatus, nrej, calls, logs, hist>>
 
 -----------------------------------------------------------------------------
 \* StreamToQueue.route_code: push a code in front of the route code
@@ -72,7 +76,7 @@ Init ==
     /\ (fallback = None => fbss)          \* without a fallback the argument has no effect: one representative
     /\ prefixRules = <<>> /\ idRules = <<>>
     /\ startStop = IF fbss /\ fallback # None THEN {fallback} ELSE {}
-    /\ inRun = FALSE /\ runs = 0 /\ nrules = 0 /\ nstatus = 0
+    /\ inRun = FALSE /\ runs = 0 /\ nrules = 0 /\ nstatus = 0 /\ nrej = 0
     /\ calls = <<>> /\ hist = <<>>
     /\ logs = [s \in AllSinks |-> <<>>]
 
@@ -95,21 +99,37 @@ AddRule(r) ==
     /\ logs' = IF inRun /\ (r.dss \/ Variant = "asCoded")
                THEN Give(logs, {r.sink}, "startTestRun") ELSE logs
     /\ Log("addRule", r, NoEvent, FALSE, NoInfo)
-    /\ UNCHANGED <<fallback, fbss, inRun, runs, nstatus>>
+    /\ UNCHANGED <<fallback, fbss, inRun, runs, nstatus, nrej>>
+
+\* add_rule(...) with arguments the router must reject: the call raises (unknown policy: ValueError before
+\* anything else; "/" in route_prefix or a misspelt policy keyword: TypeError from the policy method) and NOTHING
+\* else happens - no rule, no start/stop registration, no startTestRun.  A later valid add_rule for the same sink
+\* is an ordinary AddRule.  (Variant "registerFirst": the sink is registered / started before the policy method
+\* gets to validate, real.py add_rule with the two statements swapped.)
+AddRuleRejected(b) ==
+    /\ nrej < MaxRejected
+    /\ inRun \/ runs < MaxRuns
+    /\ nrej' = nrej + 1
+    /\ LET early == Variant = "registerFirst" /\ b.dss /\ b.why # "unknown-policy" IN
+       /\ startStop' = IF early THEN startStop \cup {b.sink} ELSE startStop
+       /\ logs' = IF early /\ inRun THEN Give(logs, {b.sink}, "startTestRun") ELSE logs
+    /\ Log("addRuleRejected", [kind |-> b.why, key |-> None, sink |-> b.sink, consume |-> FALSE, dss |-> b.dss],
+           NoEvent, TRUE, NoInfo)
+    /\ UNCHANGED <<fallback, fbss, prefixRules, idRules, inRun, runs, nrules, nstatus>>
 
 StartTestRun ==
     /\ ~inRun /\ runs < MaxRuns
     /\ inRun' = TRUE /\ runs' = runs + 1
     /\ logs' = Give(logs, startStop, "startTestRun")
     /\ Log("startTestRun", NoRule, NoEvent, FALSE, NoInfo)
-    /\ UNCHANGED <<fallback, fbss, prefixRules, idRules, startStop, nrules, nstatus>>
+    /\ UNCHANGED <<fallback, fbss, prefixRules, idRules, startStop, nrules, nstatus, nrej>>
 
 StopTestRun ==
     /\ inRun
     /\ inRun' = FALSE
     /\ logs' = Give(logs, startStop, "stopTestRun")
     /\ Log("stopTestRun", NoRule, NoEvent, FALSE, NoInfo)
-    /\ UNCHANGED <<fallback, fbss, prefixRules, idRules, startStop, runs, nrules, nstatus>>
+    /\ UNCHANGED <<fallback, fbss, prefixRules, idRules, startStop, runs, nrules, nstatus, nrej>>
 
 \* status(**kwargs)   (real.py:558-576), fed with the event that left the StreamToQueue chain e.via
 Status(e) ==
@@ -130,9 +150,10 @@ Status(e) ==
                /\ Log("status", NoRule, e, TRUE, info)
           ELSE /\ logs' = [logs EXCEPT ![target] = Append(@, Entry("status", out, e.id, e.rest))]
                /\ Log("status", NoRule, e, FALSE, info)
-    /\ UNCHANGED <<fallback, fbss, prefixRules, idRules, startStop, inRun, runs, nrules>>
+    /\ UNCHANGED <<fallback, fbss, prefixRules, idRules, startStop, inRun, runs, nrules, nrej>>
 
 Next == StartTestRun \/ StopTestRun \/ (\E r \in Rules : AddRule(r)) \/ (\E e \in Events : Status(e))
+        \/ (\E b \in BadRules : AddRuleRejected(b))
 
 Spec == Init /\ [][Next]_vars
 
@@ -206,5 +227,5 @@ StartStopExact ==
 -----------------------------------------------------------------------------
 Terminal == ~inRun /\ runs = MaxRuns
 ExportC == Terminal => PrintT(<<"EXPORT", ToJson([fallback |-> fallback, fbss |-> fbss, hist |-> hist])>>)
-ViewNoHist == <<fallback, fbss, prefixRules, idRules, startStop, inRun, runs, nrules, nstatus, calls, logs>>
+ViewNoHist == <<fallback, fbss, prefixRules, idRules, startStop, inRun, runs, nrules, nstatus, nrej, calls, logs>>
 =============================================================================
